@@ -30,6 +30,7 @@ META = {
 META["explanation"] += ' Shared clauses: R04.3 (next_now / next_ref_now read the value and mark the version under one guard) and the close / wake group.'
 META["explanation"] += ' R01.6b a function that replaces the state handle of an existing Subscriber (clone_from, mem::replace, assignment) stores the matching observed version on every path.'
 META["explanation"] += ' R01.13 the notify function adds 1 to the version on every path to its return (no "nobody is parked" early return). R01.14 derived state: a field of ObservableState other than value/metadata that some state method computes from the value and another reads (a cached hash, a flag) is rewritten on every path after each mutable access to the value; today there is no such field and the rule reports that.'
+META["explanation"] += ' R01.4e every Ready(Some) of a subscriber poll path (both flavours) is dominated by the call of the poll leaf. R01.6 / R04.3 accept pure delegation to the sibling that is judged itself (next_now = next_ref_now().clone()).'
 
 STATE = "state::ObservableState::<T>::"
 CALL_CLOSURE = r"(FnOnce|FnMut|Fn)(<.*>>?)?::call(_once|_mut)?$"
@@ -125,6 +126,8 @@ def run(ctx):
     r01_12(ctx)
     r01_13(ctx, notify)
     r01_14(ctx)
+    from . import c16
+    c16.ready_from_leaf(ctx, "R01.4e")   # no Ready(Some) built past the leaf (its closed test and version bookkeeping)
     from . import groups, c04
     c04.r04_3(ctx)  # the value handed out and the version marked as observed must come from one guard, else an update is skipped
     groups.eyeball_close_and_wake(ctx)  # a premature or missing close makes next() ready (None) / pending at the wrong time
@@ -548,6 +551,21 @@ def r01_6(ctx, init):
                         pd = b.post_dominated_by(0, [loc[0]])
                         ctx.verdict(ok and pd, "R01.6", f, "marks-observed", b.line_at(loc), "observed_version = guard.version() on every path",
                                     "`%s` stores `%s` into observed_version%s" % (name, fmt(e, 4), "" if pd else " only on some paths"))
+            if not found:
+                # delegation: the marking sibling is called on every path to the return (it is judged itself)
+                deleg = False
+                for lb in logical_bodies(F, f):
+                    b = inl(F, lb)
+                    if not b or lb.kind == "closure":
+                        continue
+                    blks = [blk for blk, t in b.calls() if F.local_callee(lb, t) is not None and root_fn(F, F.local_callee(lb, t)) is not f
+                            and (root_fn(F, F.local_callee(lb, t)).raw.get("self_ty") or "").startswith("subscriber::Subscriber<") and root_fn(F, F.local_callee(lb, t)).name in ("next_now", "next_ref_now")]
+                    if blks and b.post_dominated_by(0, blks):
+                        deleg = True
+                if deleg:
+                    n += 1
+                    ctx.holds("R01.6", f, "marks-observed", f.loc(), "`%s` delegates to the marking sibling on every path" % name)
+                    continue
             if not found:
                 n += 1
                 ctx.violated("R01.6", f, "marks-observed", f.loc(), "`%s` does not store the current version into observed_version: the value it returned is reported again by next()" % name)
